@@ -1054,6 +1054,10 @@ func (x *Exec) evalCall(env *specEnv, n *ast.CallExpr, hint types.Type, cl *Clau
 		need(1)
 		kind := map[string]string{"isInvalidData": "invalidData", "isStopTest": "stopTest", "isTestError": "testError", "isOtherPanic": "other"}[fname]
 		return x.panicKind(st, arg(0, nil), kind)
+	case "isRef":
+		need(1)
+		a := arg(0, nil)
+		return Term{S: "((_ is any_ref) " + a.S + ")", Sort: sBool}
 	case "strOf":
 		// payload of a string-kinded interface value
 		need(1)
